@@ -206,7 +206,7 @@ pub fn index(data: &[u8]) {
         budget = budget.saturating_sub(run);
         versions[i] = run as u16;
     }
-    let case = props::c09::IdxCase { keylen, bloom: u.arbitrary().unwrap_or(false), prefix: u.arbitrary().unwrap_or(0x55), versions, seed: u.arbitrary().unwrap_or(1), ts_span: u.int_in_range(1u8..=4).unwrap_or(2), del_pct: pick(&mut u, &[0u8, 15, 50]), blob_size: u.int_in_range(0u64..=1_000_000).unwrap_or(1), all_keys: nkeys <= 300 };
+    let case = props::c09::IdxCase { keylen, bloom: u.arbitrary().unwrap_or(false), prefix: u.arbitrary().unwrap_or(0x55), versions, seed: u.arbitrary().unwrap_or(1), ts_span: u.int_in_range(1u8..=4).unwrap_or(2), del_pct: pick(&mut u, &[0u8, 15, 50]), blob_size: u.int_in_range(0u64..=1_000_000).unwrap_or(1), all_keys: nkeys <= 300, rev_order: matches!(keylen, 8 | 33 | 400) && u.ratio(1u8, 3u8).unwrap_or(false) };
     let dir = scratch();
     if let Err(e) = finish(&dir, || { if std::env::var("VERIF_FUZZ_SELFTEST").is_ok() && case.versions.len() == 7 { panic!("selftest panic") } props::c09::run_idx(&case, &dir) }) {
         report("C09", "index", &case, &e);
